@@ -46,6 +46,14 @@ ROOTS = ['@T/root', '@T/root/', 'root', './root/', 'rootx/../root',
          '@T/root/nouser', 'cd=rootx;static']
 
 
+def download_for(name, T):
+    """the `download` argument of the call - a function of the requested name (replays pass the same): mostly absent, sometimes True,
+    sometimes a file name of its own (it only names the attachment; decoys of that name exist outside the root)"""
+    import zlib
+    k = zlib.crc32(name.replace(T, '@T').encode('utf8', 'surrogatepass')) % 8
+    return {0: True, 1: 'above.txt', 2: T + '/above.txt', 3: 'rootx/d.txt', 4: '../above.txt'}.get(k, False)
+
+
 def root_and_cwd(spec, T):
     """-> (root argument, working directory) of a root spelling ('cd=<dir below T>;<root>' changes the directory first)"""
     if spec.startswith('cd='):
@@ -278,7 +286,7 @@ def work(spec):
             core.track(res, case)
             del opened[:]
             try:
-                resp = ss.static_file(name, root)
+                resp = ss.static_file(name, root, download=download_for(name, T))
             except Exception as e:   # noqa
                 core.add_violation(res, case, f'static_file raised {type(e).__name__}: {e}', sig=f'raised:{type(e).__name__}')
                 continue
@@ -380,11 +388,13 @@ def replay(case):
         root, cwd = root_and_cwd(case['root'], T)
         os.chdir(cwd)
         name = case['name'].replace('@T', T)
+        dl = download_for(name, T)
+        dl = '' if dl is False else ', download=%r' % (dl.replace(T, '@T') if isinstance(dl, str) else dl)
         filemap = {tuple(norm_abs(os.path.join(T, rel), T)): data for rel, data in FILES.items()}
         try:
-            resp = ss.static_file(name, root)
+            resp = ss.static_file(name, root, download=download_for(name, T))
         except Exception as e:   # noqa
-            return f'static_file({case["name"]!r}, {case["root"]!r}) raised {type(e).__name__}: {e}'
+            return f'static_file({case["name"]!r}, {case["root"]!r}{dl}) raised {type(e).__name__}: {e}'
         code = resp.status_code
         data = None
         if hasattr(resp.body, 'read'):
@@ -395,16 +405,16 @@ def replay(case):
         for p in opened:
             pl = norm_abs(p, cwd)
             if not (len(pl) > len(r) and pl[:len(r)] == r):
-                return f'static_file({case["name"]!r}, {case["root"]!r}) opened {p.replace(T, "@T")!r} outside the root'
+                return f'static_file({case["name"]!r}, {case["root"]!r}{dl}) opened {p.replace(T, "@T")!r} outside the root'
         where = ('/' + '/'.join(loc)).replace(T, '@T')
         if code == 200 and (not inside or exp_file is None or data != exp_file):
-            return (f'static_file({case["name"]!r}, {case["root"]!r}) answered 200 with {data!r}; normalised location '
+            return (f'static_file({case["name"]!r}, {case["root"]!r}{dl}) answered 200 with {data!r}; normalised location '
                     f'{where} inside={inside} file={exp_file!r}')
         if code in (403, 404) and exp_file is not None:
-            return f'static_file({case["name"]!r}, {case["root"]!r}) answered {code} for the inside file {where}'
+            return f'static_file({case["name"]!r}, {case["root"]!r}{dl}) answered {code} for the inside file {where}'
         if code == 304 and case.get('ims'):
             if exp_file is None:
-                return (f'static_file({case["name"]!r}, {case["root"]!r}) with If-Modified-Since in the future answered 304; normalised location '
+                return (f'static_file({case["name"]!r}, {case["root"]!r}{dl}) with If-Modified-Since in the future answered 304; normalised location '
                         f'{where} inside={inside} is not a file inside the root (403 / 404 expected)')
             return None
         if code not in (200, 403, 404):
